@@ -84,16 +84,9 @@ def spec_hash() -> str:
 
 
 def witness(ctx, k, known, regenerate=False):
-    """Shortest behaviour reaching crash signature k: TLC trap invariant; cached under findings/C05
-    (keyed by the hash of the spec, so a changed spec regenerates it)."""
-    d = os.path.join(VERIF, "findings", "C05")
-    os.makedirs(d, exist_ok=True)
-    path = os.path.join(d, f"witness_{k['role']}_{k['event']}_{k['state']}.json")
-    if not regenerate and os.path.exists(path):
-        c = json.load(open(path))
-        if c.get("spec_sha1") == spec_hash():
-            ctx.count("witness_cache_hits")
-            return [(l, st) for l, st in c["behaviour"]]
+    """Shortest behaviour reaching crash signature k: TLC trap invariant.  Generated on every run (no cache: the work a
+    run reports must not depend on what an earlier run left behind); kept in the run's work directory."""
+    path = os.path.join(ctx.work, f"witness_{k['role']}_{k['event']}_{k['state']}.json")
     write_model(ctx, "MC_C05_trap", known, trap=k, maxpeer=3, maxtick=1, invs=("Trap",))
     rt = must_ok(run_tlc("MC_C05_trap", workdir=ctx.work, spec_dir=ctx.work, timeout=1200))
     ctx.transitions += rt.generated
